@@ -384,7 +384,7 @@ def worker(args):
 def run(chk):
     quick = chk.tier == 'quick'
     P = (chk.prop, chk.tier)
-    NB = 3 if quick else 5
+    NB = 3 if quick else 6
     cases = []
     for n in range(0, NB + 1):
         cases.append(P + (('getitem', n),))
